@@ -1801,9 +1801,12 @@ def _readsegment(
             result += before
             return after, result
 
-        buf = _recv(sock, RECV_SIZE)
-        if not buf:
+        chunk = _recv(sock, RECV_SIZE)
+        if not chunk:
             raise MemcacheUnexpectedCloseError()
+        # keep what was already read: the segment (or the end tokens
+        # themselves) may span several recv() results
+        buf += chunk
 
 
 def _recv(sock: socket.socket, size: int) -> bytes:
